@@ -1,6 +1,9 @@
 //! Sections of the reflection dump. Each section prints lines `key value...`.
 #[path = "dumps_parse.rs"]
 mod dumps_parse;
+#[path = "dumps_write.rs"]
+mod dumps_write;
+
 pub fn dump(which: &[String]) {
     let all = which.is_empty();
     let want = |s: &str| all || which.iter().any(|w| w == s);
@@ -12,6 +15,8 @@ pub fn dump(which: &[String]) {
         println!("format {}", cfg!(feature = "format"));
         println!("std {}", cfg!(feature = "std"));
     }
+    // number→string side: dragonbox, grisu, int_tables, sizes
+    dumps_write::dump_write(&want);
     // string->float tables and limits (lemire, small_powers, large_powers, bellerophon, float_consts)
     if all || dumps_parse::SECTIONS.iter().any(|s| want(s)) {
         dumps_parse::dump(&want);
